@@ -75,7 +75,7 @@ fn directed32() -> BoxedStrategy<u64> {
 
 pub fn run(rep: &mut Report) {
     let tier = rep.cfg.tier;
-    rep.rule = "every input pattern a: sqrt(a) compared with the posit rounding of the exact square root, decided by exact comparison of a with t^2 (NaR for NaR / negative, 0 for 0). P8, P16: all patterns. P32: proptest inputs (squares of thresholds and of posits +-2 ulp, structured bits) in quick; all 2^32 patterns in thorough. Non-trivial = positive input whose root is not representable; distinct inputs."
+    rep.rule = "every input pattern a: sqrt(a) compared with the posit rounding of the exact square root, decided by exact comparison of a with t^2 (NaR for NaR / negative, 0 for 0). P8, P16: all patterns. P32: all 2^32 patterns against the fast oracle in both tiers, plus proptest inputs (squares of thresholds and of posits +-2 ulp, structured bits) against the exact oracle. Non-trivial = positive input whose root is not representable; distinct inputs."
         .into();
     rep.assumptions = std_assumptions();
     super::run_corpus(rep, replay);
@@ -84,8 +84,9 @@ pub fn run(rep: &mut Report) {
     match tier {
         Tier::Quick => {
             rep.generated("P32E2 directed inputs (threshold^2, posit^2 +-2ulp, structured bits), exact oracle", 600_000, directed32, |&a, l| sqrt_slow::<P32E2>(a, l));
-            let off = rep.cfg.seed % 2;
-            rep.lattice("P32E2 every 2nd pattern (offset = seed mod 2), fast oracle", 1 << 31, move |i, l| sqrt_fast::<P32E2>(i * 2 + off, l));
+            // complete: a defect confined to a handful of the 2^32 patterns (seeded C06-r2-m1: four inputs) is
+            // out of reach of any sampling; the negative half costs almost nothing (NaR on both sides)
+            rep.exhaustive("P32E2 all 2^32 inputs (fast oracle)", 1 << 32, |i, l| sqrt_fast::<P32E2>(i, l));
         }
         Tier::Thorough => {
             rep.generated("P32E2 directed inputs (threshold^2, posit^2 +-2ulp, structured bits), exact oracle", 6_000_000, directed32, |&a, l| sqrt_slow::<P32E2>(a, l));
